@@ -181,8 +181,7 @@ def showISig (s : ISig) : String :=
 def sigClasses (env : NameEnv) (d : DefArgs) : String :=
   let anns := d.allArgs.filterMap (·.ann) ++ d.returns.toList
   let cs := (if anns.any D13_starUnpack then ["starUnpack"] else []) ++
-    (if D13_reboundName env d then ["reboundName"] else []) ++
-    (if D13_asyncGenInferred d then ["asyncGenInferred"] else [])
+    (if D13_reboundName env d then ["reboundName"] else [])
   if cs.isEmpty then "-" else ",".intercalate cs
 
 def sigRClasses (env : NameEnv) (d : DefArgs) : String :=
